@@ -11,8 +11,11 @@ import (
 	"time"
 
 	"github.com/form3tech-oss/f1/v2/internal/gaussian"
+	"github.com/form3tech-oss/f1/v2/internal/options"
 	tg "github.com/form3tech-oss/f1/v2/internal/trigger/gaussian"
+	"github.com/form3tech-oss/f1/v2/internal/ui"
 	"github.com/form3tech-oss/f1/v2/internal/verifh/kit"
+	"github.com/form3tech-oss/f1/v2/internal/verifh/runkit"
 )
 
 const year1 = int64(62135596800)
@@ -105,6 +108,10 @@ func TestC11(t *testing.T) {
 				}
 			}
 		}
+		viaFlags := i%4 == 1
+		if viaFlags && i%8 == 1 {
+			c.peak = 0
+		}
 		prev = c
 		dist, err := gaussian.NewDistribution(float64(c.peak), float64(c.stddev))
 		if err != nil {
@@ -116,7 +123,30 @@ func TestC11(t *testing.T) {
 			blanks = int(r.Range(1, 9))
 			o.Count("weights-string", "with empty entries")
 		}
+		// a third way in: the trigger as `f1 run gaussian` builds it, from the builder's flag set, every
+		// option written out - a peak offset of exactly zero (the window's first tick) included
+		if viaFlags {
+			c.viaRate = false
+			o.Count("built", "through the command's flag set")
+		}
 		crashedCtor, _ := kit.Guard(func() {
+			if viaFlags {
+				ws := make([]string, len(c.weights))
+				for k, w := range c.weights {
+					ws[k] = strconv.FormatFloat(w, 'g', -1, 64)
+				}
+				cfg := runkit.Config{Mode: "gaussian", Flags: map[string]string{"volume": strconv.FormatFloat(c.volume, 'g', -1, 64), "repeat": time.Duration(c.repeat).String(),
+					"iteration-frequency": time.Duration(c.freq).String(), "peak": time.Duration(c.peak).String(), "standard-deviation": time.Duration(c.stddev).String(),
+					"weights": strings.Join(ws, ","), "distribution": "none", "jitter": "0"}, Opts: options.RunOptions{MaxDuration: time.Second}}
+				if len(ws) == 0 {
+					delete(cfg.Flags, "weights")
+				}
+				trig, e := runkit.BuildTrigger(&cfg, ui.NewDiscardOutput())
+				if e == nil {
+					rate = trig.DryRun
+				}
+				return
+			}
 			if c.viaRate {
 				ws := make([]string, len(c.weights))
 				for k, w := range c.weights {
